@@ -40,7 +40,7 @@ ANCHORS = ["txtorcon.torcontrolprotocol:parse_keywords", "txtorcon.torcontrolpro
            "txtorcon.torcontrolprotocol:TorControlProtocol.get_conf",
            "txtorcon.torcontrolprotocol:TorControlProtocol.get_conf_single",
            "txtorcon.torcontrolprotocol:TorControlProtocol._accumulate_multi_response"]
-FLOORS = {"quick": {"evaluations": 3000, "results_compared": 3000, "earlier_calls_on_same_connection": 800, "results_of_calls_outstanding_together": 1000, "reach:txtorcon.torcontrolprotocol:parse_keywords": 3000},
+FLOORS = {"quick": {"evaluations": 3000, "results_compared": 3000, "earlier_calls_on_same_connection": 800, "results_of_calls_outstanding_together": 1000, "earlier_call_cancelled_while_in_flight": 80, "reach:txtorcon.torcontrolprotocol:parse_keywords": 3000},
           "thorough": {"evaluations": 40000, "results_compared": 40000}}
 
 ALPHA = ["a", "=", " ", '"', "'", "2", "5", "0", ".", "O", "K"]
@@ -118,6 +118,22 @@ PRIOR = {
 
 
 def do_prior(s, kind, rec):
+    if kind == "cancelled-in-flight":
+        # the caller gives up (cancel / addTimeout) on a command that is already on the wire; Tor
+        # still answers it, late
+        line = "GETINFO slow/key"
+        s.set_reply(line.encode("ascii"), (250, [("mid", "slow/key=late answer"), ("end", "OK")]))
+        try:
+            d = s.proto.get_info("slow/key")
+        except Exception as e:
+            return repr(e)
+        o = s.aud.watch(d, "prior:cancelled")
+        d.cancel()
+        rec.count("earlier_calls_on_same_connection")
+        rec.count("earlier_call_cancelled_while_in_flight")
+        if rec is not None and o.fired != 1:
+            return "cancelled call fired %d times" % o.fired
+        return None         # its (late) reply is delivered together with the next call's traffic
     api, line, reply = PRIOR[kind]
     s.set_reply(line.encode("ascii"), reply)
     sink = []
@@ -164,6 +180,23 @@ def prepare(case):
         callkeys = keys
         if api == "get_info_single":
             want_ok = [w[keys[0]] for w in want_ok]
+    elif case.get("grouped"):
+        # one virtual option whose reply interleaves several real keys (GETCONF HiddenServiceOptions:
+        # HiddenServiceDir / HiddenServicePort ... per service); every key keeps all its values in order
+        key = case["keys"][0]
+        pairs = [tuple(p) for p in case["values"]]
+        ls = ["%s=%s" % (k, v) for (k, v) in pairs]
+        parts = [("mid", l) for l in ls[:-1]] + [("end", ls[-1])]
+        want = {}
+        for k, v in pairs:
+            want.setdefault(k, []).append(v)
+        want = {k: (v[0] if len(v) == 1 else v) for k, v in want.items()}
+        icls = value_class([v for (_, v) in pairs])
+        if icls == "general":
+            icls = "general+keys-interleaved"
+        cmd = "GETCONF " + key
+        callkeys = [key]
+        want_ok = [want]
     else:
         key = case["keys"][0]
         vals = case["values"]          # None = unset, else list of str (>=1)
@@ -214,6 +247,8 @@ def run_case(case, rec, ctx):
         ctx.s = None
         return
     rec.count("results_compared")
+    if case.get("grouped"):
+        rec.count("replies_with_interleaved_keys")
     if not o.ok:
         rec.violation("call-failed", icls, {"got": o.describe(), "logged": errs}, case)
         return
@@ -273,6 +308,15 @@ def short_values(maxlen):
 
 
 def gen_call(rnd, edge=False):
+    if rnd.random() < 0.06:
+        pairs = []
+        for svc in range(rnd.choice([2, 2, 3, 4])):
+            pairs.append(("HiddenServiceDir", "/var/lib/tor/hs%d" % svc))
+            for _ in range(rnd.choice([1, 1, 2])):
+                pairs.append(("HiddenServicePort", "%d 127.0.0.1:%d" % (rnd.choice([80, 443, 22]), rnd.randint(1024, 65000))))
+            if rnd.random() < 0.3:
+                pairs.append(("HiddenServiceVersion", rnd.choice(["2", "3"])))
+        return {"api": "get_conf", "keys": ["HiddenServiceOptions"], "values": pairs, "grouped": True}
     r = rnd.random()
     txt = lambda: gen.text(rnd, maxlen=40, edge=False, dots=True)    # noqa
     if r < 0.3:
@@ -349,7 +393,7 @@ def run_shard(spec, rec):
             case = gen_call(rnd, spec.get("edge"))
             case["chunking"] = gen.chunking(rnd)
             if rnd.random() < 0.2:
-                case["before"] = [rnd.choice(sorted(PRIOR)) for _ in range(rnd.choice([1, 1, 2]))]
+                case["before"] = [rnd.choice(sorted(PRIOR) + ["cancelled-in-flight"]) for _ in range(rnd.choice([1, 1, 2]))]
             if rnd.random() < 0.3:
                 form = rnd.choice(["single", "multi", "data"])
                 case["event"] = {"name": rnd.choice(["CONF_CHANGED", "NS", "STREAM", "BW"]), "form": form,
